@@ -339,3 +339,63 @@ Proof.
   intros Hp Ht Hw Ha Hb He. unfold tversky_loss. apply fpow_unit.
   pose proof (tversky_range alpha beta eps p t w Hp Ht Hw Ha Hb He) as H. rf. lra.
 Qed.
+
+(* ---- masked (weighted) correlation: range by the weighted Cauchy-Schwarz inequality ------------------------ *)
+Lemma cs_cross A B C x y : 0 <= B -> 0 <= C -> A*A <= B*C -> 2*A*x*y <= B*(y*y) + C*(x*x).
+Proof.
+  intros HB HC H.
+  pose proof (Rle_0_sqr x) as Hx. pose proof (Rle_0_sqr y) as Hy. unfold Rsqr in *.
+  assert (Hxy : 0 <= (x*x)*(y*y)) by (apply Rmult_le_pos; assumption).
+  assert (Hp : 0 <= B*(y*y) + C*(x*x)).
+  { pose proof (Rmult_le_pos _ _ HB Hy). pose proof (Rmult_le_pos _ _ HC Hx). lra. }
+  assert (H1 : (A*A)*((x*x)*(y*y)) <= (B*C)*((x*x)*(y*y))) by (apply Rmult_le_compat_r; assumption).
+  pose proof (Rle_0_sqr (B*(y*y) - C*(x*x))) as Hs. unfold Rsqr in Hs.
+  assert (Hq : (2*A*x*y)*(2*A*x*y) <= (B*(y*y) + C*(x*x))*(B*(y*y) + C*(x*x))) by lra.
+  destruct (Rle_lt_dec (2*A*x*y) (B*(y*y) + C*(x*x))) as [|Hlt]; [assumption|].
+  exfalso. assert (0 < 2*A*x*y) by lra.
+  assert ((B*(y*y) + C*(x*x))*(B*(y*y) + C*(x*x)) < (2*A*x*y)*(2*A*x*y)).
+  { apply Rle_lt_trans with ((B*(y*y) + C*(x*x))*(2*A*x*y)).
+    - apply Rmult_le_compat_l; lra.
+    - apply Rmult_lt_compat_r; lra. }
+  lra.
+Qed.
+
+Lemma wcs_step A B C x y w : 0 <= w -> 0 <= B -> 0 <= C -> A*A <= B*C ->
+  (x*w*y + A)*(x*w*y + A) <= (x*w*x + B)*(y*w*y + C).
+Proof.
+  intros Hw HB HC H. pose proof (cs_cross A B C x y HB HC H) as Hc.
+  assert (Hm : w * (2*A*x*y) <= w * (B*(y*y) + C*(x*x))) by (apply Rmult_le_compat_l; assumption).
+  lra.
+Qed.
+
+Lemma wsq_nonneg (x w : rvec) : nonneg w -> 0 <= vsum (vmul (vmul x w) x).
+Proof.
+  unfold vmul. intro Hw. revert x. induction Hw as [|v w Hv _ IH]; intros [|a x]; cbn [vmap2 vsum]; rf; try lra.
+  specialize (IH x). pose proof (sq_nn a). assert (0 <= a * v * a) by (replace (a * v * a) with (v * (a * a)) by ring; apply Rmult_le_pos; assumption). lra.
+Qed.
+
+Lemma weighted_cauchy_schwarz (x y w : rvec) : nonneg w ->
+  vsum (vmul (vmul x w) y) * vsum (vmul (vmul x w) y) <= vsum (vmul (vmul x w) x) * vsum (vmul (vmul y w) y).
+Proof.
+  intro Hw. revert x y. induction Hw as [|v w Hv Hw IH]; intros x y.
+  - destruct x, y; unfold vmul; cbn [vmap2 vsum]; rf; lra.
+  - destruct x as [|a x].
+    + pose proof (wsq_nonneg y (v :: w) (Forall_cons _ Hv Hw)). unfold vmul in *. cbn [vmap2 vsum] in *. rf. lra.
+    + destruct y as [|b y].
+      * pose proof (wsq_nonneg (a :: x) (v :: w) (Forall_cons _ Hv Hw)). unfold vmul in *. cbn [vmap2 vsum] in *. rf. lra.
+      * specialize (IH x y). pose proof (wsq_nonneg x w Hw) as HB. pose proof (wsq_nonneg y w Hw) as HC.
+        unfold vmul in *. cbn [vmap2 vsum].
+        set (A := vsum (vmap2 fmul (vmap2 fmul x w) y)) in *. set (B := vsum (vmap2 fmul (vmap2 fmul x w) x)) in *.
+        set (C := vsum (vmap2 fmul (vmap2 fmul y w) y)) in *. clearbody A B C. rf.
+        apply wcs_step; assumption.
+Qed.
+
+(* masked ncc_loss (non-negative mask) is in [0, 1] *)
+Lemma ncc_w_range (eps : RF) (s t w : rvec) :
+  nonneg w -> 0 <= eps ->
+  0 < vsum (vmul (vmul (wcenter s w) w) (wcenter s w)) * vsum (vmul (vmul (wcenter t w) w) (wcenter t w)) + eps ->
+  0 <= ncc_w eps s t w <= 1.
+Proof.
+  intros Hw He Hd. unfold ncc_w. cbv zeta.
+  apply cc_score_range_gen; auto using wsq_nonneg, weighted_cauchy_schwarz.
+Qed.
